@@ -153,12 +153,13 @@ func (w *WaitGroup) Wait() {
 // legal behaviours); outside it is the real pool.
 type Pool struct {
 	real rsync.Pool
+	init rsync.Once
 	New  func() any
 }
 
 func (p *Pool) Get() any {
 	if !sched.Active() {
-		p.real.New = p.New
+		p.init.Do(func() { p.real.New = p.New })
 		return p.real.Get()
 	}
 	if p.New != nil {
